@@ -6,11 +6,11 @@ namespace Argot.C07
 
 /-! ### a batch of queue heads whose successors are all unmarked is processed verbatim -/
 
-theorem runCur_batch (g : Cfg) (tgt : Nat) :
+theorem runOld_batch (g : Cfg) (tgt : Nat) :
     ∀ (xs rest vis : List Nat) (fuel c : Nat),
       (∀ x ∈ xs, x ≠ tgt) → (∀ x ∈ xs, ∀ y ∈ succs g x, y ∉ xs ∧ y ∉ vis) →
-      runWith (stepCur g tgt) (fuel + xs.length) { que := xs ++ rest, vis := vis } c
-        = runWith (stepCur g tgt) fuel { que := rest ++ xs.flatMap (succs g), vis := xs.reverse ++ vis } (c + xs.length)
+      runWith (stepOld g tgt) (fuel + xs.length) { que := xs ++ rest, vis := vis } c
+        = runWith (stepOld g tgt) fuel { que := rest ++ xs.flatMap (succs g), vis := xs.reverse ++ vis } (c + xs.length)
   | [], rest, vis, fuel, c, _, _ => by simp
   | x :: xs, rest, vis, fuel, c, ht, hs => by
     have hx : x ≠ tgt := ht x (by simp)
@@ -20,7 +20,7 @@ theorem runCur_batch (g : Cfg) (tgt : Nat) :
       have := hs x (by simp) y hy
       have h1 : y ≠ x := by intro h; subst h; exact this.1 (by simp)
       simp [h1, this.2]
-    have ih := runCur_batch g tgt xs (rest ++ succs g x) (x :: vis) fuel (c + 1)
+    have ih := runOld_batch g tgt xs (rest ++ succs g x) (x :: vis) fuel (c + 1)
       (fun x' hx' => ht x' (by simp [hx']))
       (by
         intro x' hx' y hy
@@ -33,7 +33,7 @@ theorem runCur_batch (g : Cfg) (tgt : Nat) :
         · exact this.2 h)
     have e : fuel + (x :: xs).length = (fuel + xs.length) + 1 := by simp; omega
     rw [e]
-    simp only [runWith, stepCur, List.cons_append, hx, if_false, hfil]
+    simp only [runWith, stepOld, List.cons_append, hx, if_false, hfil]
     rw [List.append_assoc] at ih ⊢
     rw [ih]
     simp only [List.flatMap_cons, List.reverse_cons, List.append_assoc, List.length_cons, List.singleton_append]
@@ -142,14 +142,14 @@ theorem head_succ (i : Nat) : head (i + 1) = 3 * i + 2 := by simp [head]; omega
 /-- one diamond: from `k` copies of its `if` block to `2k` copies of the next one, in `3k` iterations. -/
 theorem run_level (n i : Nat) (hi : i < n) (k : Nat) (vis : List Nat) (hv : ∀ v ∈ vis, v ≤ 3 * i) (fuel c : Nat) :
     ∃ vis', (∀ v ∈ vis', v ≤ 3 * (i + 1)) ∧
-      runWith (stepCur (diamonds n) (3 * n + 1)) (fuel + 2 * k + k) { que := List.replicate k (head i), vis := vis } c
-        = runWith (stepCur (diamonds n) (3 * n + 1)) fuel
+      runWith (stepOld (diamonds n) (3 * n + 1)) (fuel + 2 * k + k) { que := List.replicate k (head i), vis := vis } c
+        = runWith (stepOld (diamonds n) (3 * n + 1)) fuel
             { que := List.replicate (2 * k) (head (i + 1)), vis := vis' } (c + 3 * k) := by
   have hh := succs_head n i hi
   have ha := succs_arms n i hi
   have hle := head_le i
   -- the k copies of the head
-  have b1 := runCur_batch (diamonds n) (3 * n + 1) (List.replicate k (head i)) [] vis (fuel + 2 * k) c
+  have b1 := runOld_batch (diamonds n) (3 * n + 1) (List.replicate k (head i)) [] vis (fuel + 2 * k) c
     (by intro x hx; rw [List.eq_of_mem_replicate hx]; omega)
     (by
       intro x hx y hy
@@ -161,7 +161,7 @@ theorem run_level (n i : Nat) (hi : i < n) (k : Nat) (vis : List Nat) (hv : ∀ 
   simp only [List.append_nil, List.nil_append, List.length_replicate] at b1
   rw [flatMap_replicate (succs (diamonds n)) (head i) (3 * i + 1) (3 * i + 3) hh k] at b1
   -- the 2k arms
-  have b2 := runCur_batch (diamonds n) (3 * n + 1) (dup (3 * i + 1) (3 * i + 3) k) []
+  have b2 := runOld_batch (diamonds n) (3 * n + 1) (dup (3 * i + 1) (3 * i + 3) k) []
     ((List.replicate k (head i)).reverse ++ vis) fuel (c + k)
     (by intro x hx; rcases mem_dup _ _ _ _ hx with h | h <;> omega)
     (by
@@ -205,12 +205,12 @@ theorem diaSteps_closed : ∀ (j k : Nat), diaSteps j k + 3 * k = 4 * k * 2 ^ j
 
 theorem run_levels (n : Nat) : ∀ (j i : Nat), i + j = n → ∀ (k : Nat) (vis : List Nat), (∀ v ∈ vis, v ≤ 3 * i) →
     ∀ (extra c : Nat),
-      runWith (stepCur (diamonds n) (3 * n + 1)) (extra + 1 + diaSteps j k) { que := List.replicate k (head i), vis := vis } c
+      runWith (stepOld (diamonds n) (3 * n + 1)) (extra + 1 + diaSteps j k) { que := List.replicate k (head i), vis := vis } c
         = { answer := false, steps := c + diaSteps j k, done := true }
   | 0, i, hij, k, vis, _, extra, c => by
     have hin : i = n := by omega
     subst hin
-    have b := runCur_batch (diamonds i) (3 * i + 1) (List.replicate k (head i)) [] vis (extra + 1) c
+    have b := runOld_batch (diamonds i) (3 * i + 1) (List.replicate k (head i)) [] vis (extra + 1) c
       (by intro x hx; rw [List.eq_of_mem_replicate hx]; have := head_le i; omega)
       (by
         intro x hx y hy
@@ -224,7 +224,7 @@ theorem run_levels (n : Nat) : ∀ (j i : Nat), i + j = n → ∀ (k : Nat) (vis
     rw [hfm] at b
     simp only [diaSteps]
     rw [b]
-    simp [runWith, stepCur]
+    simp [runWith, stepOld]
   | j + 1, i, hij, k, vis, hv, extra, c => by
     obtain ⟨vis', hv', hrun⟩ := run_level n i (by omega) k vis hv (extra + 1 + diaSteps j (2 * k)) c
     have ih := run_levels n j (i + 1) (by omega) (2 * k) vis' hv' extra (c + 3 * k)
